@@ -154,6 +154,8 @@ def run(tier: str, seed: int, replay=None) -> int:
     model_ok = core.standard_proof_steps(
         rep, PROP, ["Props/C09.vo"],
         regen=[("Gen/Quant.v", lambda: t_quant.translate(str(core.REPO)), core.COQ / "Gen" / "Quant.v")])
+    from translator import pins
+    pins.oblige(rep, str(core.REPO), "quant", "the counting-loop model (Eql/Quant.v)")
     if model_ok and tier == "thorough":
         core.coqchk(rep, PROP)
     descrs = [replay["case"]] if replay else gen_cases(tier, seed)
